@@ -964,6 +964,10 @@ class CircuitTemplate(AbstractBaseTemplate):
                     else:
                         nodes.append(n)
             else:
+                # a level that this (sub-)circuit does not have matches no node (the one-level case above returns an
+                # empty list as well); under a wildcard level the other branches are still searched
+                if node_lvl not in net:
+                    return list()
                 net_tmp = net[node_lvl]
                 if isinstance(net_tmp, CircuitTemplate):
                     for n in net_tmp.get_nodes(node_identifier[1:], var_identifier):
